@@ -12,6 +12,8 @@ Require Import Selen.Model.Prelude Selen.Model.SparseSet Selen.Model.SetSpec.
 Require Import Selen.Model.Dom Selen.Model.Views Selen.Model.PropDefs Selen.Model.Props.Basic Selen.Model.Props.LinInt Selen.Model.Props.Global Selen.Model.Props.Logic Selen.Model.Propagate Selen.Model.Search.
 Require Import Selen.Model.LP Selen.Model.Limits.
 Require Import Selen.Model.Gac Selen.Model.Props.AllDiff.
+Require Import Selen.Model.B64 Selen.Model.FloatInterval Selen.Model.CtxFloat.
+Require Import Selen.Model.Api Selen.Model.Lower.
 Extraction Language OCaml.
 Set Extraction AccessOpaque.
 Cd "Extract".
@@ -27,9 +29,16 @@ Extraction "selen_model.ml"
   mk_alleq mk_alleq_fixed kf_alleq_empty mk_between mk_ite
   fifo lcg_pick propagate prop_fuel agenda_with search enumerate minimize maximize solve
   solve_lim minimize_lim enumerate_lim never from_check
+  fold fold_cons eval_expr eval_cons holds stmt_cons build lower validate psat to_linear linform
+  kf_or_not kf_nested_ne kf_aux_bounds win_cons impl_cons exec_cons all_asgs asg_of_list or_eq_pattern
   mkLP lp_wf feasible objective check_opt check_infeasible feasible_tol q_close_rel lp_solve f64_to_Q qdot lp_nvars needs_phase1
   bs_new bs_from_values sp_new sp_from_values bs_remove_value bs_assign bs_remove_above bs_remove_below sp_assign
   hy_new hy_from_values hy_remove_value hy_assign hy_remove_above hy_remove_below
   bitset_alldiff hybrid_alldiff sparse_alldiff bitset_propagate hybrid_propagate sparse_propagate all_vars all_sols sol_check
-  kf_sparse_matching kf_sparse_value_range mk_alldiff.
+  kf_sparse_matching kf_sparse_value_range mk_alldiff
+  of_bits to_bits f64_of_Z to_ze fis_nan fis_inf fis_finite arith_probe cmp_probe conv_probe
+  ulp_of prev_float next_float precision_to_step_size fi_new fi_with_step fi_with_step_unchecked fi_next fi_prev fi_contains
+  fi_is_empty fi_is_fixed fi_size fi_step_count fi_round_to_step fi_floor_to_step fi_ceil_to_step fi_intersect fi_intersects
+  fi_assign fi_remove_below fi_remove_above fi_mid fi_save fi_restore tsmin_ff tsmax_ff tsmin_fi tsmax_fi ceil_as_i32 floor_as_i32
+  tsmin_range_f tsmax_range_f fop_apply fop_run magn_b magn_op_b.
 Cd "..".
